@@ -25,7 +25,8 @@ ASSUMPTIONS = [
     "gates of the histories are Xgate, BSgate(pi/2, 0), MeasureHomodyne(select), MeasureFock — that each of them acts "
     "only on its targets is the subject of C05, here only the selection of rows / axes and their labels is at stake",
     "fock back end: cutoff 5, |<x>| <= 1, comparison of <x>/0.25 to the nearest integer within 0.06",
-    "explicit state(modes=...): positions in the list of active modes, in the requested order (fock, gaussian); mode indices, returned in ascending order (bosonic)",
+    "explicit state(modes=...): subsystem indices on every back end; returned in the requested order (fock, gaussian) or in "
+    "ascending index order (bosonic, documented); lists with repeated indices are not generated",
     "gaussian/bosonic histories measure one mode at a time (Gaussian measure_fock does not update the state, bosonic has no MeasureFock)",
 ]
 TRUSTED = ["modelled: Program._add_subsystems/_delete_subsystems/_test_regrefs/append/can_follow/Program(parent), "
@@ -71,6 +72,9 @@ def oracle(ctx, hist, real):
         ctx.fail(sig, f"[{be}] {what}", rp)
 
     seg_nonempty = False
+    seg_events = []         # accepted events of the segment under construction
+    last_seg = None         # (accepted events, changed register?, nonempty?) of the segment run last
+    boundary = None         # (get_modes, state) after the last successful run
     seg_meas = {}           # index -> "h" (post-selected homodyne, value 0.25) | "f" (MeasureFock) in this segment
     for k, (ev, ob) in enumerate(zip(hist["events"], real)):
         e = ev["e"]
@@ -85,6 +89,7 @@ def oracle(ctx, hist, real):
                     fail("prog-rejects-valid", f"event {k} {ev} raised {ob['r']} although all named modes are live")
                     return tainted
                 newinds = spec.apply(ev)
+                seg_events.append(ev)
                 seg_nonempty = seg_nonempty or not (ev.get("all") and not ev["ms"])
                 if e == "meas":
                     for r_ in ev["ms"]:
@@ -111,8 +116,12 @@ def oracle(ctx, hist, real):
             prev_refs = refs
         elif e == "end":
             if ev.get("mismatch"):
-                if ob["r"] != "RuntimeError":
-                    fail("can-follow", f"event {k}: a program whose initial register does not match the simulator ran ({ob['r']})")
+                if ob["r"] == "ok":
+                    fail("can-follow", f"event {k}: a program whose initial register ({prev_refs}) does not match the register the "
+                         f"previous segment ended with was run: register {ob.get('ranReg')}, get_modes {ob.get('gm')}")
+                elif boundary is not None and (ob.get("gm_after") != boundary[0] or ob.get("state_after") != boundary[1]):
+                    fail("refused-run-touches-simulator", f"event {k}: the run was refused ({ob['r']}) but the simulator changed: "
+                         f"{boundary} -> {ob.get('gm_after')}, {ob.get('state_after')}")
                 return tainted
             if ob["r"] != "ok":
                 if seg_nonempty:
@@ -121,8 +130,11 @@ def oracle(ctx, hist, real):
                 return k if tainted is None else tainted
             if seg_nonempty:
                 segs_run += 1
+            last_seg = (seg_events, any(x["e"] in ("new", "del") for x in seg_events), seg_nonempty)
+            seg_events = []
             seg_nonempty = False
             live = spec.live()
+            boundary = (ob["gm"], ob["state"])
             n0 = len(fails)
             if not (ob["ranReg"] == ob["gm"] == live):
                 fail(f"register-backend-mismatch:{be}", f"event {k}: register {ob['ranReg']}, get_modes {ob['gm']}, live {live}")
@@ -155,10 +167,12 @@ def oracle(ctx, hist, real):
                     if po["gm"] != exp:
                         fail(f"backend-probe-modes:{be}", f"event {k}: after {pr['t']} {ms}: get_modes {po['gm']}, expected {exp}")
             for ms, so in zip(ev.get("modes", []), ob["smodes"]):
-                if be == "bosonic":      # mode indices, returned in ascending order
-                    exp = [[i, spec.rows[i]] for i in sorted(ms)]
-                else:                    # positions in the list of active modes, returned in the requested order
-                    exp = [spec.state()[p] for p in ms]
+                # subsystem indices on every back end; requested order (fock, gaussian), ascending (bosonic)
+                if any(i >= len(spec.rows) or spec.rows[i] is None for i in ms):
+                    if not isinstance(so, dict):
+                        fail(f"state-modes-accepts-dead:{be}", f"event {k}: state(modes={ms}) returned {so} although live modes are {live}")
+                    continue
+                exp = [[i, spec.rows[i]] for i in (sorted(ms) if be == "bosonic" else ms)]
                 if isinstance(so, dict):
                     fail(f"state-modes-raises:{be}", f"event {k}: state(modes={ms}) failed: {so}")
                 elif any(lbl not in live or spec.rows[lbl] != d for lbl, d in so) or len(so) != len(ms):
@@ -191,15 +205,54 @@ def oracle(ctx, hist, real):
             if len(fails) > n0 and be == "bosonic" and segs_run >= 2 and tainted is None:
                 tainted = k
         elif e == "reset":
+            boundary = (ob.get("gm"), ob.get("state"))
             seg_meas = {}
             spec = reghist.Spec(ev["n"])
             prev_refs = [[i, True] for i in range(ev["n"])]
             segs_run = 0
             seg_nonempty = False
+        elif e == "alien":
+            # Program(P) for an independently built P: its own register from here on (data of surviving indices kept)
+            rows = [None if i in ev["dels"] else (spec.rows[i] if i < len(spec.rows) and spec.rows[i] is not None else 0)
+                    for i in range(ev["n"])]
+            if [i for i, d in enumerate(rows) if d is not None] != spec.live():
+                raise core.Infra(f"generator: alien program with another active set {ev}")
+            spec = reghist.Spec(0)
+            spec.rows = rows
+            prev_refs = ob["refs"]
+            seg_events = []
+        elif e == "rerun":
+            evs_, changed, nonempty = last_seg if last_seg else ([], False, False)
+            if changed:
+                if ob["r"] == "ok":
+                    fail("can-follow", f"event {k}: the program run last created / deleted modes, yet it was accepted as its own successor: "
+                         f"get_modes {ob.get('gm')}, register {spec.live()}")
+                    return tainted
+                if boundary is not None and (ob.get("gm_after") != boundary[0] or ob.get("state_after") != boundary[1]):
+                    fail("refused-run-touches-simulator", f"event {k}: the repeated run was refused ({ob['r']}) but the simulator changed: "
+                         f"{boundary} -> {ob.get('gm_after')}, {ob.get('state_after')}")
+            else:
+                if nonempty:
+                    segs_run += 1
+                if ob["r"] != "ok":
+                    fail(f"run-raises:{be}:{ob['r']}", f"event {k}: repeating a segment that neither creates nor deletes modes raised {ob['r']}: {ob.get('msg')}")
+                    return k if tainted is None else tainted
+                for x in evs_:
+                    if x["e"] in ("use", "meas"):
+                        spec.apply(x)
+                n0_ = len(fails)
+                if ob["gm"] != spec.live():
+                    fail(f"register-backend-mismatch:{be}", f"event {k}: after the repeated run get_modes {ob['gm']}, live {spec.live()}")
+                elif ob["state"] != spec.state():
+                    fail(f"state-data:{be}", f"event {k}: after the repeated run the state carries {ob['state']}, expected {spec.state()}")
+                boundary = (ob["gm"], ob["state"])
+                if len(fails) > n0_ and be == "bosonic" and segs_run >= 2 and tainted is None:
+                    tainted = k
         elif e == "resetkeep":
             # the register (no holes, else the next run is refused) goes on, on a new simulator
             if None not in spec.rows:
                 spec = reghist.Spec(len(spec.rows))
+            boundary = (ob.get("gm"), ob.get("state"))
             segs_run = 0
             seg_nonempty = False
         elif e == "fresh":
@@ -221,7 +274,7 @@ def model_request(hist):
     be = "fock" if hist["backend"].startswith("fock") else hist["backend"]
     evs = []
     for ev in hist["events"]:
-        ev = {k: v for k, v in ev.items() if k not in ("bad", "mismatch")}
+        ev = {k: v for k, v in ev.items() if k not in ("bad", "mismatch", "kind", "follows")}
         evs.append(ev)
     return dict(op="reg.hist", backend=be, n0=hist["n0"], events=evs)
 
@@ -237,6 +290,10 @@ def compare(ctx, hist, real, model, upto):
         e = ev["e"]
         if e == "poke":
             keys = ("use", "new")
+        elif e == "rerun":
+            keys = (("r", "gm", "internal", "nstore", "state") + PROG_KEYS[1:-1]) if ob["r"] == "ok" else ("r",)
+        elif e == "alien":
+            keys = PROG_KEYS[:-1]
         elif e in ("end", "reset", "resetkeep"):
             keys = END_KEYS if ob["r"] == "ok" else ("r",)
             if e != "end":
@@ -282,6 +339,33 @@ def one_history(ctx, sf, hist, batch):
             f["sig"] == "bosonic-later-segment-reinit" for f in ctx.failures[n0:]):
         upto = 0   # a property failure: do not also report it as model disagreement
     batch.append((hist, real, upto))
+    return real
+
+
+def cross_backends(ctx, sf, hist, batch):
+    """the same (portable) history on every back end: the full states and every state(modes=[...]) answer must agree
+    (bosonic returns the requested modes in ascending index order)"""
+    bes = ["fock", "fock-mixed", "gaussian"] + (["bosonic"] if sum(e["e"] == "end" for e in hist["events"]) == 1 else [])
+    reals = {}
+    for be in bes:
+        reals[be] = one_history(ctx, sf, dict(hist, backend=be), batch)
+    ref = reals["gaussian"]
+    for be in bes:
+        if be == "gaussian":
+            continue
+        for k, (ev, a, b) in enumerate(zip(hist["events"], ref, reals[be])):
+            if ev["e"] != "end" or a.get("r") != "ok" or b.get("r") != "ok":
+                continue
+            ctx.oracle_cases += 1
+            if a["state"] != b["state"]:
+                ctx.fail(f"cross-backend-state:{be}", f"event {k}: gaussian returns {a['state']}, {be} returns {b['state']}",
+                         dict(kind="cross", hist=hist))
+            for ms, x, y in zip(ev.get("modes", []), a["smodes"], b["smodes"]):
+                xe, ye = isinstance(x, dict), isinstance(y, dict)
+                same = (xe and ye) or (not xe and not ye and (sorted(x) == sorted(y) if be == "bosonic" else x == y))
+                if not same:
+                    ctx.fail(f"cross-backend-state-modes:{be}", f"event {k}: state(modes={ms}) is {x} on gaussian and {y} on {be}",
+                             dict(kind="cross", hist=hist))
 
 
 def flush(ctx, batch):
@@ -362,8 +446,13 @@ def run(ctx, sf):
     flush(ctx, batch)
     modemap_run(ctx, ctx.n(300, 3000))
     rng = ctx.rng
-    plan = [("gaussian", ctx.n(110, 1500)), ("fock", ctx.n(45, 500)), ("fock-mixed", ctx.n(35, 400)),
-            ("bosonic", ctx.n(70, 800))]
+    plan = [("gaussian", ctx.n(100, 1500)), ("fock", ctx.n(36, 500)), ("fock-mixed", ctx.n(26, 400)),
+            ("bosonic", ctx.n(60, 800))]
+    for k in range(ctx.n(16, 200)):
+        h = reghist.gen_history(rng, "gaussian", multi=(k % 2 == 1), portable=True)
+        cross_backends(ctx, sf, h, batch)
+        ctx.tally("cross-backend histories")
+    flush(ctx, batch)
     for be, n in plan:
         for k in range(n):
             multi = True
@@ -393,6 +482,9 @@ def replay(ctx, rp):
                     return True
         return False
     hist = rp["hist"]
+    if rp.get("kind") == "cross":
+        cross_backends(ctx, sf, hist, [])
+        return len(ctx.failures) > n0
     real = reghist.run_real(sf, hist)
     oracle(ctx, hist, real)
     return len(ctx.failures) > n0
